@@ -25,6 +25,7 @@ var replayTable = []replayDriver{
 	{Funcs: []string{"iobroker.Broker.proxyOut#1"}, PkgDir: "internal/iobroker", File: "iobroker_readerleak_test.go", Test: "TestVerifReplayReaderLeak"},
 	{Funcs: []string{"iobroker.Broker.ConnectInOut"}, PkgDir: "internal/iobroker", File: "iobroker_crosspair_test.go", Test: "TestVerifReplayCrossPair"},
 	{Funcs: []string{"uu.AppendEncode", "uu.AppendDecode", "uu.MaxEncodedLen", "uu.MaxDecodedLen", "bounded.uu"}, PkgDir: "lib/uu", File: "uu_contract_test.go", Test: "TestVerifReplayUUContract"},
+	{Funcs: []string{"sstls.GetCertificate", "sstls.LoadCachedCertificate", "sstls.SaveCertificate", "bounded.sstls"}, PkgDir: "lib/sstls", File: "sstls_torncache_test.go", Test: "TestVerifBoundedTornCache"},
 	{Funcs: []string{"shellfuncsfile.FromPerl"}, PkgDir: "lib/shellfuncsfile", File: "shellfuncsfile_emptyperl_test.go", Test: "TestVerifReplayEmptyPerl"},
 	{Funcs: []string{"shellfuncsfile.Converter.fromSingleFile", "shellfuncsfile.Converter.fromDirectory"}, PkgDir: "lib/shellfuncsfile", File: "shellfuncsfile_c17_test.go", Test: "TestVerifReplayC17"},
 	{Funcs: []string{"simpleshell.Go"}, PkgDir: "lib/simpleshell", File: "simpleshell_defaultclient_test.go", Test: "TestVerifReplayDefaultClient"},
